@@ -102,4 +102,20 @@ example :
   | 0, _, hd' => simp [Item.variants] at hd'; subst hd'; rfl
   | j + 2, _, hd' => simp [Item.variants] at hd'
 
+/-- "skip markers never remove a field from construction", stated on the generator itself: the generated `fn default`
+body of a data depends only on its shape, its number of fields and whether it counts as default — two datas that differ
+in *any* skip marker (`skip_inner` of the data, `skip` of each field), in names, `incomparable` or discriminant get the
+same constructor expression. -/
+theorem C11_skip_blind (k : Nat) (d d' : Data) (hs : d.shape = d'.shape)
+    (hl : d.fields.length = d'.fields.length) (hdef : d.isDefault = d'.isDefault) :
+    defaultBody k d = defaultBody k d' := by
+  have h1 := map_iterFields d .default (fun i => FieldInit.mk i (.defaultCall k i))
+  have h2 := map_iterFields d' .default (fun i => FieldInit.mk i (.defaultCall k i))
+  have h3 := map_iterFields d .default (fun i => Expr.defaultCall k i)
+  have h4 := map_iterFields d' .default (fun i => Expr.defaultCall k i)
+  have r1 := relevantIdx_unskippable d .default (Or.inr (Or.inr rfl))
+  have r2 := relevantIdx_unskippable d' .default (Or.inr (Or.inr rfl))
+  simp only [defaultBody, ← hs, ← hdef]
+  simp only [h1, h2, h3, h4, r1, r2, hl]
+
 end DW
